@@ -1,6 +1,128 @@
-"""C11 — decided on the serial dependency engine; see deps_check.py (shared body) and DESIGN §7."""
+"""C11 — decided on the serial dependency engine; see deps_check.py (shared body) and DESIGN §7.
+Plus the stamp layer: the strings `Stamp::from_metadata` writes into the database and `Stamp::detect_override`
+(the test that keeps redo from overwriting a file somebody edited) against `RedoModel/StampStr.lean`."""
+import random, sqlite3
 import deps_check
+from common import *
 from c_deps_common import *
 
+
+def rust_mtime(st):
+    # Duration::as_secs_f64 followed by {:.6}
+    return "%.6f" % (float(st.st_mtime_ns // 10 ** 9) + float(st.st_mtime_ns % 10 ** 9) / 1e9)
+
+
+def stamp_level(ctx, rng, viol):
+    from proj import Project
+    thorough = ctx["tier"] == "thorough"
+    stats = dict(pairs=0, override_true=0, rendered=0, kinds={})
+    # (1) detect_override on pairs of stamp strings: rendered metadata with one field changed, links, the constants, junk
+    def meta():
+        return ["%d.%06d" % (rng.choice([0, 1, 1700000000, 1700000001]), rng.choice([0, 1, 500000, 999999])), str(rng.choice([0, 1, 5, 4096])), str(rng.randint(1, 3)),
+                str(rng.choice([33188, 33261, 41471])), str(rng.choice([0, 1000])), str(rng.choice([0, 1000]))]
+    def stamp():
+        r = rng.random()
+        if r < 0.08:
+            return "0"
+        if r < 0.14:
+            return "dir"
+        if r < 0.75:
+            return "-".join(meta())
+        if r < 0.9:
+            return "-".join(meta()) + "+" + rng.choice(["0", "dir", "-".join(meta())])
+        return rng.choice(["", "-", "--", "1-2", "1.5", "a-b-c-d", "0-0", "dir-1", "1.000000-5", "1.000000-5-", "-5-1", "0+0", "é-1-2"])
+    pairs = []
+    for _ in range(30000 if thorough else 3000):
+        a = stamp()
+        if rng.random() < 0.6 and a.count("-") >= 5:
+            f = a.split("+")[0].split("-")
+            k = rng.randrange(len(f))
+            f[k] = rng.choice(meta())
+            b = "-".join(f) + ("+" + a.split("+", 1)[1] if "+" in a and rng.random() < 0.7 else "")
+        else:
+            b = stamp()
+        pairs.append((a, b))
+    lines = ["stamp-override %s %s" % (hx(a), hx(b)) for a, b in pairs]
+    diffs, m, impl = diff_lines(lines)
+    stats["pairs"] = len(pairs)
+    stats["override_true"] = sum(1 for x in impl if x == "true")
+    if diffs:
+        def is_missed(d):
+            x, y = [unhx(z).decode() for z in d[0].split()[1:]]
+            fx, fy = x.split("+")[0].split("-"), y.split("+")[0].split("-")
+            return d[2] == "false" and len(fx) >= 6 and len(fy) >= 6 and fx[:2] != fy[:2]
+        l, a, b = min([d for d in diffs if is_missed(d)] or diffs, key=lambda d: len(d[0]))
+        x, y = [unhx(z).decode() for z in l.split()[1:]]
+        p = write_replay("C11", "stamp-corr", dict(kind="model-vs-impl", layer="StampStr.detectOverride", recorded=x, current=y, model=a, impl=b, count=len(diffs)))
+        # a failing input for the property: an edit (new mtime or size) that the implementation does not take for one
+        fx, fy = x.split("+")[0].split("-"), y.split("+")[0].split("-")
+        missed = b == "false" and len(fx) >= 2 and len(fy) >= 2 and fx[:2] != fy[:2]
+        viol.append(Violation("C11", p, "detect_override(%r, %r): model %s, implementation %s%s" % (x, y, a, b, "; a file edited by hand (other mtime/size) is not recognised and would be overwritten" if missed else ""), no_input=not missed))
+        return stats
+    # (2) what a real build records for the files it looks at, against `StampStr.render` of what lstat/stat say
+    pr = Project()
+    try:
+        os.makedirs(pr.path("d"))
+        pr.write("plain", "hello\n")
+        pr.write("empty", "")
+        pr.write("exe", "#!/bin/sh\n")
+        os.chmod(pr.path("exe"), 0o755)
+        os.symlink("plain", pr.path("ln"))
+        os.symlink("nowhere", pr.path("dangling"))
+        os.symlink("d", pr.path("lnd"))
+        os.utime(pr.path("empty"), ns=(1, 1))                       # 0.000000
+        os.utime(pr.path("exe"), ns=(1700000000999999999, 1700000000999999999))   # rounds up across the second
+        deps = ["plain", "empty", "exe", "ln", "dangling", "lnd", "d", "absent"]
+        pr.write("t.do", "redo-ifchange %s\nredo-ifcreate absent\necho t\n" % " ".join(d for d in deps if d not in ("absent", "dangling")))
+        rc, out, err = pr.run(["redo", "t"])
+        pr.run(["redo-ifchange", "dangling"])        # refused (nothing there, no rule), but looked at
+        db = sqlite3.connect("file:%s?mode=ro" % pr.path(".redo/db.sqlite3"), uri=True)
+        rows = dict(db.execute("select name, stamp from Files"))
+        db.close()
+        def render(st):
+            import stat as S
+            if S.S_ISDIR(st.st_mode):
+                return "dir"
+            return run_lines(MODEL, ["stamp-render %s %d %d %d %d %d" % (rust_mtime(st), st.st_size, st.st_ino, st.st_mode, st.st_uid, st.st_gid)])[0]
+        problems = []
+        if rc != 0:
+            problems.append("redo t failed (%d): %s" % (rc, err[-300:]))
+        for d in deps + ["t", "t.do"]:
+            path = pr.path(d)
+            try:
+                l = os.lstat(path)
+            except FileNotFoundError:
+                want, kind = "0", "missing"
+            else:
+                import stat as S
+                if S.S_ISLNK(l.st_mode):
+                    try:
+                        want, kind = render(l) + "+" + render(os.stat(path)), "link"
+                    except FileNotFoundError:
+                        want, kind = render(l) + "+0", "dangling"
+                else:
+                    want, kind = render(l), "dir" if S.S_ISDIR(l.st_mode) else "file"
+            stats["kinds"][kind] = stats["kinds"].get(kind, 0) + 1
+            got = rows.get(d)
+            if d == "absent" or (d == "dangling" and got is None):
+                continue            # never stamped: only its absence is recorded
+            stats["rendered"] += 1
+            if got != want:
+                problems.append("%s (%s): the database holds %r, StampStr.render of its metadata gives %r" % (d, kind, got, want))
+        if problems:
+            p = write_replay("C11", "stamp-render", dict(kind="model-vs-impl", layer="StampStr.render", problems=problems, rows=rows))
+            viol.append(Violation("C11", p, "; ".join(problems[:2]), no_input=True))
+    finally:
+        pr.destroy()
+    return stats
+
+
 def run(ctx):
-    return deps_check.run_property(ctx, "C11", FEATURES["C11"], NCASES["C11"], WANT["C11"], known_matcher=KNOWN.get("C11"))
+    viol = ctx.setdefault("violations", [])
+    st = stamp_level(ctx, random.Random(ctx["seed"] * 41 + 11), viol)
+    if viol:
+        return dict(evaluations=st["pairs"], distinct_nontrivial=st["override_true"], rule="stamp strings", samples=[], distribution=dict(stamps=st))
+    cov = deps_check.run_property(ctx, "C11", FEATURES["C11"], NCASES["C11"], WANT["C11"], known_matcher=KNOWN.get("C11"))
+    cov.setdefault("distribution", {})["stamps"] = st
+    cov["rule"] = "stamp strings: pairs of rendered/constant/link/malformed stamps through Stamp::detect_override and StampStr.detectOverride, and the stamps a real build records for regular files, symlinks (to a file, a directory, nothing), directories against StampStr.render of lstat/stat; " + cov.get("rule", "")
+    return cov
